@@ -92,6 +92,10 @@ func canonicalReal() []realScenario {
 	out = append(out, realScenario{Name: "canon-real-timing-one-cu-partition-long-stall", Kind: "timing", Seed: 204, Alg: "partition", NDisp: 2, NCU: 1,
 		Adv: nano, InstLat: 3, Link: linkSpec{Up: allCUs(1, window{From: 1, Until: 6000})},
 		Launches: []realLaunch{rk(64, 45, 16, 4, 0, 1, "alu"), rk(192, 10, 16, 4, 0, 500, "barrier")}})
+	// the mi300a shape (8 slots, 512 VGPRs per lane) with kernels that need more than 64 VGPRs: the real register file is the judge
+	out = append(out, realScenario{Name: "canon-real-timing-mi300a-shape-large-vgpr-demand", Kind: "timing", Seed: 205, Alg: "round-robin", NDisp: 2, NCU: 1,
+		Adv: mi300a(), InstLat: 4, Link: linkSpec{Up: allCUs(1, window{From: 300, Until: 1500}), UpGapMax: 3},
+		Launches: []realLaunch{rk(64, 40, 16, 84, 0, 1, "alu"), rk(256, 12, 32, 100, 0, 50, "barrier"), rk(64, 20, 16, 128, 0, 600, "nops")}})
 	return out
 }
 
